@@ -164,6 +164,11 @@ def op_gen_noise(job):
         g = CategoricalClassification()
         X = g.generate_data(it['nf'], it['ns'], cardinality=it['card'], ensure_rep=True, seed=it['seed'])
         y = (np.sum(X, axis=1) > np.median(np.sum(X, axis=1))).astype(int) if it.get('classes', 2) == 2 else (np.sum(X, axis=1) % it['classes']).astype(int)
+        if it.get('disjoint'):
+            # per-feature domains that share no value ({0..}, {100..}, {200..}) and a label that follows feature 0, so that
+            # some values of a feature occur under one class only
+            X = X + 100 * np.arange(X.shape[1], dtype=X.dtype)[None, :]
+            y = (X[:, 0] != X[:, 0].min()).astype(int) if it.get('classes', 2) == 2 else (X[:, 0] % it['classes']).astype(int)
         if it.get('labels') is not None:
             y = np.array([it['labels'][i % len(it['labels'])] for i in range(it['ns'])])
         Xin = X.astype(float) if it.get('float') else X          # the very array handed to the generator
